@@ -883,6 +883,13 @@ def run(ctx):
                     continue
                 errs = validate_ast(new, parse(text)).errors
                 ctx.count("operations_revalidated")
+                if errs and all("return conflicting types" in str(e) for e in errs) and \
+                        any(x.startswith("field_type_") for x in applied):
+                    # a field made stricter (T -> T!, [T] -> [T!]) no longer has the response shape of the
+                    # field it shares a response name with on another object type
+                    ctx.violation("unsound-no-breaking:stricter-output-type-breaks-shared-response-name",
+                                  dict(witness, operation=text), "errors %r" % ([str(e) for e in errs][:2],))
+                    break
                 if errs:
                     ctx.violation("unsound-no-breaking:operation-no-longer-valid", dict(witness, operation=text),
                                   "errors %r; reported changes %r" % ([str(e) for e in errs][:2], [m for _c, m, _s in changes][:4]))
